@@ -386,6 +386,38 @@ def gen_struct(name, rng, ctx, flavour):
     return fam
 
 
+def gen_struct_long(name, rng, ctx):
+    """a record with two fields and a very long legal history: fields added and removed again, one
+    pair of steps after the other, so that the stored version crosses 127/128 and reaches 254 (the library allows 255 entries including the initial version)"""
+    fam = Family(name, "struct")
+    fam.tags.add("long")
+    rec = Record()
+    rec.fields = [Field("id", lit_int("u32", 0, 2**32 - 1)), Field("tail", str_ty())]
+    rec.used = {"id", "tail"}
+    rec.has_removal = True
+    counter = [0]
+
+    def step():
+        if len(rec.steps) % 2 == 0:
+            nm = f"t{counter[0]}"
+            counter[0] += 1
+            ty = lit_int("u8", 0, 255)
+            rec.fields.insert(1, Field(nm, ty, chunk=len(rec.steps) + 1, default=f"{counter[0] % 250}u8"))
+            rec.used.add(nm)
+            rec.steps.append(("FieldAdded", nm))
+        else:
+            f = rec.fields[1]
+            rec.fields.remove(f)
+            rec.steps.append(("FieldRemoved", f.name))
+
+    for k, target in enumerate([100, 126, 127, 128, 200, 254]):
+        while len(rec.steps) < target:
+            step()
+        fam.log.append(f"release {k}: {target} steps")
+        fam.versions.append(rec.clone())
+    return fam
+
+
 def gen_enum(name, rng, ctx):
     fam = Family(name, "enum")
     fam.tags.add("enum")
@@ -672,7 +704,7 @@ def main():
     fams = []
     ctx = dict(nestable=[], nested_used=set(), next_elem=[0])
     plan = (["general"] * 10 + ["enum"] * 5 + ["nested"] * 8 + ["containers"] * 8 + ["enum"] * 5 + ["nested"] * 4
-            + ["toplevel"] * 4 + ["shared"] * 3 + ["zipped"] * 2)
+            + ["toplevel"] * 4 + ["shared"] * 3 + ["zipped"] * 2 + ["long"])
     exclude = set()
     for a in sys.argv[3:]:
         if a.startswith("--exclude="):
@@ -680,13 +712,15 @@ def main():
     counters = {}
     for flavour in plan:
         counters[flavour] = counters.get(flavour, 0) + 1
-        prefix = {"general": "Gs", "enum": "En", "nested": "Ns", "containers": "Cs", "toplevel": "Ts", "shared": "Sh", "zipped": "Zp"}[flavour]
+        prefix = {"general": "Gs", "enum": "En", "nested": "Ns", "containers": "Cs", "toplevel": "Ts", "shared": "Sh", "zipped": "Zp", "long": "Lg"}[flavour]
         name = f"{prefix}{counters[flavour]}"
         sub = random.Random(rng.getrandbits(64))
         c = dict(ctx)
         if flavour in ("general", "containers", "toplevel", "zipped"):
             c = dict(nestable=[], nested_used=ctx["nested_used"], next_elem=ctx["next_elem"])
-        if flavour == "shared":
+        if flavour == "long":
+            fam = gen_struct_long(name, sub, c)
+        elif flavour == "shared":
             fam = gen_enum_shared(name, sub, c)
         elif flavour == "enum":
             fam = gen_enum(name, sub, c if counters[flavour] > 5 else dict(nestable=[], nested_used=ctx["nested_used"], next_elem=ctx["next_elem"]))
